@@ -610,8 +610,10 @@ def finish(pid, tier, seed, t0, P, results, violations, known_hits, plan, note=N
                   "advisory_internal_differences": r.get("advisory", 0)} for r in results],
         "input_distribution": stats,
         "known_findings_hit": [k["signature"] for k, _ in known_hits],
-        "exhaustive": False,
+        "exhaustive": bool(plan.get("exhaustive", False)),
     }
+    if plan.get("exhaustive_note"):
+        cov["exhaustive_scope"] = plan["exhaustive_note"]
     if note:
         cov["note"] = note
     ev = {
